@@ -62,8 +62,6 @@ def implbits(conn):
     if isinstance(conn, Concat):
         out = []
         for p in conn.parts:
-            if isinstance(p, Concat):
-                raise AssertionError("resolved concat has a nested concat")
-            out.extend(implbits(p))
+            out.extend(implbits(p))      # nested concatenations are legal for the exporter (exported recursively)
         return out
     raise AssertionError(f"resolved connectable of type {type(conn).__name__}")
